@@ -820,3 +820,141 @@ Example minimal_meta_example :
     mt_bbox mt = (2460, 2460, 10340, 7780) /\ mt_size mt = (788, 532) /\ mt_grid_size mt = (3, 2) /\
     mt_tiles mt = [(1, 2, 3); (2, 2, 3); (3, 2, 3); (1, 1, 3); (2, 1, 3); (3, 1, 3)].
 Proof. eexists. split; [vm_compute; reflexivity|]. vm_compute. repeat split; reflexivity. Qed.
+
+(* ---------------------------------------------------------------- padding only outside the extent *)
+
+Lemma buffered_sides m a b c d l minx miny maxx maxy bufs :
+  0 <= mbuf m ->
+  buffered_bbox m (a, b, c, d) l true = ((minx, miny, maxx, maxy), bufs) ->
+  let g := mg_grid m in let r := res_at g l in let B := mbuf m in
+  (minx = gx0 g \/ minx = a - B * r) /\ (miny = gy0 g \/ miny = b - B * r) /\
+  (maxx = gx1 g \/ maxx = c + B * r) /\ (maxy = gy1 g \/ maxy = d + B * r).
+Proof.
+  intros HB. unfold buffered_bbox. destruct (mbuf m <=? 0) eqn:E.
+  - intros H. injection H as <- <- <- <- _. cbv zeta. replace (mbuf m) with 0 by lia. lia.
+  - cbn [negb].
+    destruct (a - mbuf m * res_at (mg_grid m) l <? gx0 (mg_grid m));
+    destruct (b - mbuf m * res_at (mg_grid m) l <? gy0 (mg_grid m));
+    destruct (gx1 (mg_grid m) <? c + mbuf m * res_at (mg_grid m) l);
+    destruct (gy1 (mg_grid m) <? d + mbuf m * res_at (mg_grid m) l);
+    intros H; injection H as <- <- <- <- _; cbv zeta; auto.
+Qed.
+
+(* a tile of the pattern lies inside the block of its meta tile; each side of the requested bbox is either the
+   grid border or lies beyond the tile *)
+Lemma requested_bbox_sides m x y z :
+  mwf m -> valid_level (mg_grid m) z = true ->
+  let mt := meta_tile m x y z in
+  let g := mg_grid m in
+  let '(minx, miny, maxx, maxy) := mt_bbox mt in
+  forall cx cy cz crop, In (Some (cx, cy, cz), crop) (mt_pattern mt) ->
+    let '(tx0, ty0, tx1, ty1) := tile_bbox g cx cy cz in
+    (minx = gx0 g \/ minx + mbuf m * res_at g z <= tx0) /\ (miny = gy0 g \/ miny + mbuf m * res_at g z <= ty0) /\
+    (maxx = gx1 g \/ tx1 + mbuf m * res_at g z <= maxx) /\ (maxy = gy1 g \/ ty1 + mbuf m * res_at g z <= maxy).
+Proof.
+  intros Hm Hv. cbv zeta.
+  pose proof (main_tile_contains m x y z Hm) as Hc.
+  destruct (main_tile m x y z) as [[x0 y0] z0] eqn:Hmain.
+  destruct (meta_size m z) as [sx sy] eqn:Hms. destruct Hc as (-> & Hc).
+  pose proof (meta_size_pos m z Hm) as [Hsx Hsy]. rewrite Hms in Hsx, Hsy. cbn [fst snd] in Hsx, Hsy.
+  destruct (buffered_bbox m (unbuffered_meta_bbox m x0 y0 z) z true) as [[[[minx miny] maxx] maxy] [[[b0 b1] b2] b3]] eqn:Hb.
+  pose proof (meta_tile_unfold m x y z x0 y0 sx sy _ _ Hm Hmain Hms Hb) as Hunf.
+  destruct (mt_bbox (meta_tile m x y z)) as [[[qa qb] qc] qd] eqn:Ebb.
+  intros cx cy cz crop Hin.
+  apply (meta_tile_pattern_In m x y z x0 y0 sx sy _ b0 b1 b2 b3 _ Hm Hmain Hms Hb) in Hin.
+  rewrite Hunf in Ebb. cbn [mt_bbox] in Ebb. injection Ebb as <- <- <- <-.
+  destruct Hin as (i & j & Hi & Hj & Heq).
+  injection Heq as Ht _. symmetry in Ht. apply tile_or_none_Some in Ht. destruct Ht as (Ht & _).
+  injection Ht as -> -> ->.
+  rewrite (unbuffered_meta_bbox_eq m x0 y0 z sx sy Hm Hv Hms) in Hb.
+  destruct (block_bbox (mg_grid m) x0 y0 sx sy z) as [[[ba bb_] bc] bd] eqn:Hblock.
+  assert (HB : 0 <= mbuf m) by apply Hm.
+  pose proof (buffered_sides m ba bb_ bc bd z _ _ _ _ _ HB Hb) as (S1 & S2 & S3 & S4). cbv zeta in S1, S2, S3, S4.
+  pose proof (res_at_pos (mg_grid m) z (proj1 Hm) Hv) as Hr.
+  destruct Hm as ((_ & _ & Htw & Hth & _) & _).
+  set (g := mg_grid m) in *. set (r := res_at g z) in *. set (B := mbuf m) in *.
+  unfold block_bbox in Hblock. fold g r in Hblock. unfold tile_bbox, block_row. fold g r.
+  assert (0 <= B * r) by nia. assert (0 < r * tw g) by nia. assert (0 < r * th g) by nia.
+  destruct (ul g); injection Hblock as <- <- <- <-.
+  all: (split; [destruct S1; [left; lia|right; nia]|]); (split; [destruct S2; [left; lia|right; nia]|]);
+       (split; [destruct S3; [left; lia|right; nia]|destruct S4; [left; lia|right; nia]]).
+Qed.
+
+Lemma tile_pixel_src_None px py tw_ th_ W H j k :
+  tile_pixel_src (px, py) (tw_, th_) (W, H) j k = None ->
+  px + j < 0 \/ W <= px + j \/ py + k < 0 \/ H <= py + k \/ (tw_ <= j \/ j < 0) \/ (th_ <= k \/ k < 0).
+Proof.
+  unfold tile_pixel_src, get_tile_rect. cbn [fst snd].
+  destruct ((px <? 0) || (py <? 0) || (W <? px + tw_) || (H <? py + th_)) eqn:E.
+  - match goal with |- (if ?c then _ else _) = None -> _ => destruct c eqn:E2; [discriminate|] end. intros _. lia.
+  - match goal with |- (if ?c then _ else _) = None -> _ => destruct c eqn:E2; [discriminate|] end. intros _. lia.
+Qed.
+
+(* no_background_inside_extent: a pixel of a stored tile that is left as background (padding of TileSplitter) does not
+   lie one pixel or more inside the grid extent *)
+Lemma no_background_lemma m x y z cx cy cz px py j k :
+  mwf m -> valid_level (mg_grid m) z = true ->
+  In (Some (cx, cy, cz), (px, py)) (mt_pattern (meta_tile m x y z)) ->
+  0 <= j < tw (mg_grid m) -> 0 <= k < th (mg_grid m) ->
+  tile_pixel_src (px, py) (tw (mg_grid m), th (mg_grid m)) (mt_size (meta_tile m x y z)) j k = None ->
+  let g := mg_grid m in let r := res_at g z in
+  let '(tx0, ty0, tx1, ty1) := tile_bbox g cx cy cz in
+  ~ (gx0 g + r <= tx0 + j * r /\ tx0 + (j + 1) * r <= gx1 g - r /\
+     gy0 g + r <= ty1 - (k + 1) * r /\ ty1 - k * r <= gy1 g - r).
+Proof.
+  intros Hm Hv Hin Hj Hk Hnone. cbv zeta.
+  destruct (Z.eq_dec (mbuf m) 0) as [HB0|HB0].
+  { (* no buffer: nothing is cut, nothing is padded *)
+    exfalso.
+    assert (Hcut : no_buffer_cut m x y z).
+    { unfold no_buffer_cut. destruct (main_tile m x y z) as [[x0 y0] z0]. unfold buffered_bbox.
+      destruct (unbuffered_meta_bbox m x0 y0 z0) as [[[a b] c] d]. rewrite HB0. reflexivity. }
+    pose proof (pattern_pixel_aligned_lemma m x y z Hm Hv Hcut) as Hal. cbv zeta in Hal.
+    destruct (mt_bbox (meta_tile m x y z)) as [[[minx miny] maxx] maxy].
+    destruct (mt_size (meta_tile m x y z)) as [W H]. cbn [fst snd] in Hal.
+    destruct Hal as (_ & Hal). specialize (Hal cx cy cz px py Hin).
+    destruct (tile_bbox (mg_grid m) cx cy cz) as [[[tx0 ty0] tx1] ty1].
+    destruct Hal as (_ & _ & P1 & P2 & P3 & P4).
+    rewrite (tile_pixel_src_inside px py _ _ W H j k) in Hnone by lia. discriminate Hnone. }
+  pose proof (pattern_truncated_lemma m x y z Hm Hv) as Ht. cbv zeta in Ht.
+  pose proof (requested_bbox_sides m x y z Hm Hv) as Hs. cbv zeta in Hs.
+  destruct (mt_bbox (meta_tile m x y z)) as [[[minx miny] maxx] maxy].
+  destruct (mt_size (meta_tile m x y z)) as [W H]. cbn [fst snd] in Ht.
+  destruct Ht as ((HW & HH) & Ht). specialize (Ht cx cy cz px py Hin). specialize (Hs cx cy cz (px, py) Hin).
+  pose proof (tile_bbox_shape (mg_grid m) cx cy cz) as Hshape.
+  assert (Hcz : cz = z).
+  { pose proof (main_tile_contains m x y z Hm) as Hc.
+    destruct (main_tile m x y z) as [[x0 y0] z0] eqn:Hmain. destruct (meta_size m z) as [sx sy] eqn:Hms.
+    destruct Hc as (-> & _).
+    destruct (buffered_bbox m (unbuffered_meta_bbox m x0 y0 z) z true) as [bb [[[b0 b1] b2] b3]] eqn:Hb.
+    apply (meta_tile_pattern_In m x y z x0 y0 sx sy bb b0 b1 b2 b3 _ Hm Hmain Hms Hb) in Hin.
+    destruct Hin as (i & j' & _ & _ & Heq). injection Heq as Ht' _ _. symmetry in Ht'.
+    apply tile_or_none_Some in Ht'. destruct Ht' as (Ht' & _). injection Ht' as _ _ ->. reflexivity. }
+  subst cz.
+  destruct (tile_bbox (mg_grid m) cx cy z) as [[[tx0 ty0] tx1] ty1].
+  destruct Ht as (Hpx & Hpy). destruct Hs as (S1 & S2 & S3 & S4). destruct Hshape as (Hx1 & Hy0).
+  pose proof (res_at_pos (mg_grid m) z (proj1 Hm) Hv) as Hr.
+  assert (HB : 0 <= mbuf m) by apply Hm.
+  destruct Hm as ((_ & _ & Htw & Hth & _) & _).
+  set (g := mg_grid m) in *. set (r := res_at g z) in *. set (B := mbuf m) in *.
+  apply tile_pixel_src_None in Hnone. clear Hin Hv.
+  intros (A1 & A2 & A3 & A4). clearbody r B.
+  assert (0 <= B * r) by nia.
+  destruct Hnone as [N|[N|[N|[N|[N|N]]]]]; try lia.
+  all: assert ((j + 1) * r <= tw g * r) by nia; assert ((k + 1) * r <= th g * r) by nia;
+       assert (0 <= j * r) by nia; assert (0 <= k * r) by nia.
+  - assert ((px + j + 1) * r <= 0) by nia. destruct S1; lia.
+  - assert (W * r <= (px + j) * r) by nia. destruct S3; lia.
+  - assert ((py + k + 1) * r <= 0) by nia. destruct S4; lia.
+  - assert (H * r <= (py + k) * r) by nia. assert (r <= B * r) by nia. destruct S2; lia.
+Qed.
+
+(* non-vacuity: the last column of this grid (20.3 px wide, 8-px tiles) is only partly inside the extent; the tile
+   (2,0,0) cut out of its meta tile has background from column 4 on, whose ground rectangle [200,210] is not
+   one pixel inside the extent [0,203] *)
+Definition bg_m : mgrid := mkMG (mkGrid 0 0 203 87 8 8 [10] false 115 100 4 1) 2 1 2.
+Example background_example :
+  mt_pattern (meta_tile bg_m 2 0 0) = [(Some (2, 0, 0), (2, 1)); (None, (10, 1))] /\
+  mt_size (meta_tile bg_m 2 0 0) = (6, 9) /\
+  tile_pixel_src (2, 1) (8, 8) (6, 9) 3 0 = Some (5, 1) /\ tile_pixel_src (2, 1) (8, 8) (6, 9) 4 0 = None.
+Proof. vm_compute. repeat split; reflexivity. Qed.
